@@ -206,7 +206,12 @@ class ExprMixin:
             elif all(isinstance(x.t, TBool) for x in (vals[i], res)):
                 res = V(BOOL, z3.And(vals[i].z, res.z) if is_and else z3.Or(vals[i].z, res.z))
             else:
-                res = ite(t, res, vals[i]) if is_and else ite(t, vals[i], res)
+                try:
+                    res = ite(t, res, vals[i]) if is_and else ite(t, vals[i], res)
+                except Unsupported:
+                    # operands of unrelated types (`while queue and queue[0].flag`): only the truth value is meaningful
+                    rt = self.truth(res, st)
+                    res = V(BOOL, z3.And(t, rt) if is_and else z3.Or(t, rt))
         return res
 
     def ev_UnaryOp(self, e, st):
